@@ -698,62 +698,54 @@ where
     type Item = I::Item;
 
     fn next(&mut self) -> Option<Self::Item> {
-        loop {
-            if self.emptybuffer {
-                return self.buffer.pop_front();
-            } else if let Some(item) = self.inner.next() {
-                if self.begin >= 0 && self.cursor >= self.begin {
-                    if self.end == 0 || self.cursor < self.end {
-                        //this is the simple case
-                        self.cursor += 1;
-                        return Some(item);
-                    } else if self.end > 0 && self.cursor >= self.end {
-                        self.cursor += 1;
-                        return None;
-                    }
-                    //else fall back to buffer..
-                }
-
-                //else, if all absolute/positive constraints (if any) are respected, add to buffer
-                if ((self.begin < 0) || (self.begin >= 0 && self.cursor >= self.begin))
-                    && ((self.end <= 0) || (self.cursor < self.end))
-                {
-                    self.buffer.push_back(item);
-                    if self.end == 0 && self.begin < 0 {
-                        // we only need to keep part of the buffer in this case
-                        if self.buffer.len() > self.begin.abs() as usize {
-                            let excess = self.buffer.len() - self.begin.abs() as usize;
-                            for _ in 0..excess {
-                                self.buffer.pop_front();
-                            }
-                        }
-                    }
-                }
+        if self.emptybuffer {
+            return self.buffer.pop_front();
+        }
+        if self.begin >= 0 && self.end >= 0 {
+            //absolute range: no buffering needed
+            while let Some(item) = self.inner.next() {
+                let cursor = self.cursor;
                 self.cursor += 1;
-            } else {
-                //we reached the end, no item left in inner iterator
-                if self.begin >= 0 && self.end >= 0 {
-                    //all done
+                if self.end > 0 && cursor >= self.end {
                     return None;
-                } else {
-                    //now we can empty the buffer (on next iteration of the main loop)
-                    self.emptybuffer = true;
-                    // but first we prune unneeded items:
-                    if self.end < 0 && self.begin < 0 {
-                        //discard items from the begin which we do not want
-                        for _ in 0..self.begin.abs() {
-                            self.buffer.pop_front();
-                        }
-                    }
-                    if self.end < 0 {
-                        //discard some items at the end which we do not want
-                        for _ in 0..self.end.abs() {
-                            self.buffer.pop_back();
-                        }
-                    }
+                }
+                if cursor >= self.begin {
+                    return Some(item);
                 }
             }
+            return None;
         }
+        //a negative bound is relative to the end, so we need to see the whole inner iterator first
+        while let Some(item) = self.inner.next() {
+            self.buffer.push_back(item);
+            if self.end == 0 && self.buffer.len() > self.begin.unsigned_abs() {
+                // (begin is negative here) we only need to keep the last part of the buffer in this case
+                self.buffer.pop_front();
+            }
+            self.cursor += 1;
+        }
+        let len = self.cursor;
+        let end = if self.end == 0 {
+            len
+        } else if self.end < 0 {
+            (len + self.end).max(0)
+        } else {
+            self.end.min(len)
+        };
+        let begin = if self.begin < 0 {
+            (len + self.begin).max(0)
+        } else {
+            self.begin.min(len)
+        };
+        if !(self.end == 0 && self.begin < 0) {
+            //the buffer holds everything: cut it down to begin..end
+            self.buffer.truncate(end as usize);
+            for _ in 0..(begin as usize).min(self.buffer.len()) {
+                self.buffer.pop_front();
+            }
+        }
+        self.emptybuffer = true;
+        self.buffer.pop_front()
     }
 }
 
